@@ -51,7 +51,9 @@ Inductive category : Type :=
 | CModuleMutable   (* module-level assignment of a mutable object *)
 | CClassMutable    (* class-level mutable attribute *)
 | CMutableDefault  (* mutable default argument *)
-| CLogging.        (* logging configuration: basicConfig, getLogger, setLevel *)
+| CLogging         (* logging configuration: basicConfig, getLogger, setLevel *)
+| CPrintState.     (* np.array2string / array_str / array_repr: reads the process-global print options
+                      (np.set_printoptions) unless every layout option is pinned in the call *)
 
 (* where the seed of a generator / QMC engine / seed write comes from *)
 Inductive seedclass : Type :=
@@ -102,6 +104,8 @@ Definition kind_justified (s : site) : bool :=
   | (CModuleMutable | CClassMutable | CMutableDefault), SeedNA, ReadOnlyConstant => true
   | CSetIter, SeedNA, ReadOnlyConstant => true       (* order-insensitive reduction only *)
   | CEnvRead, SeedNA, ReadOnlyConstant => true       (* the guard of the verification probe only *)
+  | CPrintState, SeedNA, ReadOnlyConstant => true    (* max_line_width, threshold, edgeitems, legacy all pinned *)
+  | CPrintState, SeedNA, LoggingOnly => true         (* inside a display-only function (__str__/__repr__/formatting) *)
   | _, _, _ => false
   end.
 
